@@ -170,3 +170,25 @@ func ExpiryCmd(t *rapid.T, m *model.Model, keys []string, withTick bool) ExpiryO
 		return ExpiryOp{Tick: true}
 	}
 }
+
+// OverwriteCmd draws a command that stores a value under dest without reading dest first (the handlers of
+// these commands go straight to the write): the interesting case is a dest whose deadline has just passed
+// and which nothing has looked at since.
+func OverwriteCmd(t *rapid.T, m *model.Model, dest string, keys []string) []string {
+	src := Key(t, keys, "src")
+	var opts [][]string
+	if e := m.Peek(m.Cur, src); e != nil && src != dest {
+		switch e.Type {
+		case "set":
+			opts = [][]string{{"SUNIONSTORE", dest, src}, {"SINTERSTORE", dest, src}, {"SDIFFSTORE", dest, src}, {"SMOVE", src, dest, existingOr(t, setMembers(e), "mv")}}
+		case "zset":
+			opts = [][]string{{"ZUNIONSTORE", dest, src}, {"ZINTERSTORE", dest, src}, {"ZDIFFSTORE", dest, src}, {"ZRANGESTORE", dest, src, "0", "-1"}}
+		case "list":
+			opts = [][]string{{"LMOVE", src, dest, "LEFT", "RIGHT"}, {"LMOVE", src, dest, "RIGHT", "LEFT"}}
+		}
+		opts = append(opts, []string{"RENAME", src, dest})
+	}
+	opts = append(opts, []string{"MSET", dest, "ow"}, []string{"SET", dest, "ow"}, []string{"SETRANGE", dest, "0", "Q"}, []string{"APPEND", dest, "z"},
+		[]string{"INCR", dest}, []string{"RPUSH", dest, "e"}, []string{"SADD", dest, "m1"}, []string{"HSET", dest, "f", "v"}, []string{"ZADD", dest, "1", "m1"})
+	return opts[rapid.IntRange(0, len(opts)-1).Draw(t, "ow")]
+}
